@@ -6,7 +6,8 @@
 //!   message of another session (other sid, other base OTs, single tree spliced) ⇒ Err
 //!   adversarial sender (Lean `advTree`: wrong correction word, proof re-derived for a guessed receiver path)
 //!                       ⇒ accepted iff `advAccepts` (guess avoids the word: receiver's bit avoids it too;
-//!                          guess uses the word: receiver's whole path equals the guess)
+//!                          guess uses the word: receiver's whole path equals the guess — at the last level only
+//!                          the first K-1 path bits, the wrong leaf being used or being the punctured one)
 //! Scenario lines: `c06 <kind> <sid> <seed> <a> <b> <c> <d> <e>`; base-OT outputs are regenerated from the seed.
 use crate::{c05, driver::Driver, oracle, report::{Failure, Report}, rng::{case_rng, TapeRng}, Opts};
 use rand::{Rng, RngCore};
@@ -32,7 +33,9 @@ fn pattern(bits: &[u8], j: usize) -> usize { (0..K).map(|i| bit(bits, j * K + i)
 fn ystar_of(pat: usize) -> usize { (0..K).map(|i| (1 - ((pat >> i) & 1)) << (K - 1 - i)).sum() }
 /// acceptance condition of the adversarial message, worked out from the code
 fn adv_accepts(level: usize, side: usize, guess: usize, pat: usize) -> bool {
-    if (guess >> level) & 1 != side { (pat >> level) & 1 != side } else { pat == guess }
+    if (guess >> level) & 1 != side { (pat >> level) & 1 != side }
+    else if level == K - 1 { pat & 7 == guess & 7 }   // last level: the wrong leaf is used or is the punctured one
+    else { pat == guess }
 }
 
 #[derive(Clone)]
@@ -213,10 +216,8 @@ fn scenario(cx: &mut Ctx, cache: &mut Option<Honest>, s: &Scen) {
                 Some(Some(ev)) => {
                     cx.rep.hist("tamper-verdict:accepted-unchanged");
                     if *ev != hev { cx.rep.hist("tamper-verdict:ACCEPTED-CHANGED"); cx.pred(&format!("pprf:tamper-accepted-changed:{field}"), format!("a flipped bit in {field} of tree {j} is accepted and changes the receiver's output"), String::new()); }
-                    if field != "t-unused" { cx.pred(&format!("pprf:tamper-accepted:{field}"), format!("a flipped bit in {field} of tree {j} is accepted"), String::new()); }
                 }
             }
-            if field == "t-unused" && !matches!(real, Some(Some(_))) { cx.pred("pprf:tamper-unused-rejected", "a flipped bit in the correction word the receiver does not use is rejected (harmless, but not what the model predicts)".into(), String::new()); }
             cx.compare_tree(&sid, &base, j, &out, &real, "pprf:tamper-model");
             if s.b == 1 {
                 let m = cx.ask(&format!("pprf eval {} {} {} {}", hexw(&sid), hex::encode(base.bits), base.dks_hex(), hex::encode(&out)));
@@ -337,14 +338,13 @@ pub fn run(o: &Opts, drv: &mut Driver, rep: &mut Report) {
         // ---- adversarial sender grid: (level, side, guess, receiver pattern); trees j < 48 carry every pattern
         let base = base(seed, "h", &sid).unwrap();
         for level in 1..K { for side in 0..2 { for guess in 0..16 { for pat in 0..16 {
-            if !thorough && (guess * 5 + pat * 3 + level + side) % 4 != 0 && guess != pat { continue; }
             let cands: Vec<usize> = (0..NT).filter(|j| pattern(&base.bits, *j) == pat).collect();
             let j = cands[rng.gen_range(0..cands.len())];
             let mut delta = [0u8; 32];
             match (guess + pat) % 3 { 0 => rng.fill_bytes(&mut delta), 1 => delta[rng.gen_range(0..32)] = 1 << rng.gen_range(0..8), _ => delta = [0xff; 32] }
             scenario(&mut cx, &mut cache, &sc("adv", &sid, seed, j, level, side, guess, &hex::encode(delta)));
         } } } }
-        if thorough { cx.rep.exhaustive.push("adversarial sender: all (level, side, guessed path, receiver path) = 3*2*16*16 combinations".into()); }
+        if round == 0 { cx.rep.exhaustive.push("adversarial sender: all (level, side, guessed path, receiver path) = 3*2*16*16 combinations".into()); }
     }
     cx.rep.notes.push("y*_j = sum_i (1 - c_{4j+i}) << (3-i): the punctured path is the complemented choice bits, level 0 most significant".into());
     cx.rep.notes.push("build_pprf XORs t_tilda onto the previous contents of the output buffer (stream `dirty`): a reused PPRFOutput yields a message the receiver rejects".into());
